@@ -45,6 +45,23 @@ def specs():
     S.append(["Not", "not", ["Term", "f", [["Term", "a"]]]])
     S.append(["list", [["Not", "\\+", ["Term", "a"]], ["Term", "b"]]])
     S.append(["list", [["Not", "not", ["Term", "a"]], ["Term", "b"]]])
+    # the same term built from the generic class and from the specialised classes (And, Or, Not, Clause, Constant, Var), NESTED
+    # below a functor / in a list (at top level Python tries the reflected comparison as well, below it does not)
+    ab = [["Term", "a"], ["Term", "b"]]
+    for gen, txt in ((["Term", ",", ab], "(a,b)"), (["Term", ";", ab], "(a;b)"), (["Term", "\\+", [["Term", "a"]]], "\\+a"),
+                     (["Term", ":-", ab], "(a:-b)")):
+        S.append(["Term", "f", [gen]])
+        S.append(["parse", "f(%s)" % txt])
+        S.append(["list", [gen]])
+        S.append(["parse", "[%s]" % txt])
+    S.append(["Term", "f", [["Not", "\\+", ["Term", "a"]]]])
+    S.append(["Term", "f", [["Term", "a"]]])
+    S.append(["Term", "f", [["Constant", "a"]]])
+    S.append(["Term", "f", [["Term", "X"]]])
+    S.append(["list", [["Term", "X"]]])
+    S.append(["list", [["Var", "X"]]])
+    S.append(["list", [["Constant", "a"]]])
+    S.append(["list", [["Term", "a"]]])
     # floats that differ only beyond the precision ProbLog keeps (Constant rounds to 15 decimals): constructor, parser, nested
     for v in (0.1 + 0.2, 0.3, 1.1 * 3, 3.3, 4.35 * 100, 435.0, 1e-17, 0.0):
         S.append(["Constant", v])
@@ -65,10 +82,12 @@ def kind(spec):
     return k
 
 
-def cause(reprs):
+def cause(reprs, erased=None):
     """root-cause tag of a disagreement, derived from the printed forms of the objects involved"""
     import re
     rs = set(reprs)
+    if erased and len(set(erased)) == 1 and len(rs) > 1 and not any("'" in r for r in rs) and not any("not" in r for r in rs):
+        return "same-term-different-classes"        # e.g. f(Term(',',a,b)) / f(And(a,b)): same functors and arguments
     if len(rs) == 1:
         return "same-text-different-class"          # e.g. Constant(1) / Term('1') / Constant('1')
     q = {r.replace("'", "") for r in rs}
@@ -117,7 +136,7 @@ def run(ctx):
                 continue          # pair-level clauses are reported on the pair cases
             kinds = "|".join(sorted(kind(S[k]) for k in g))
             o = info[c["id"]]
-            sig = {"clause": j["why"], "kinds": kinds, "cause": cause(o["repr"])}
+            sig = {"clause": j["why"], "kinds": kinds, "cause": cause(o["repr"], o.get("erased"))}
             key = (j["why"], kinds)
             detail = "%s among %s (eq=%s hash classes=%s unif=%s)" % (j["why"], o["repr"], o["eq"], o["hash"], o["unif"])
             if key in seen_sig and len(seen_sig) > 60:
@@ -145,6 +164,6 @@ def replay(ctx, path):
     print(j)
     ctx.evaluations = 1
     if not j["ok"]:
-        ctx.violation({"clause": j["why"], "kinds": "|".join(sorted(kind(s) for s in sp)), "cause": cause(o["repr"])},
+        ctx.violation({"clause": j["why"], "kinds": "|".join(sorted(kind(s) for s in sp)), "cause": cause(o["repr"], o.get("erased"))},
                       j["why"], d["case"])
     ctx.write_evidence("exploration", {"evaluations": 1, "distinct_nontrivial": 0, "rule": "replay", "samples": [d["case"]]})
